@@ -12,21 +12,21 @@ import (
 // Error names used by the model. The executor maps bbolt's error values to
 // these names; "" means success.
 const (
-	OK                 = ""
-	ErrBucketExists    = "ErrBucketExists"
-	ErrBucketNotFound  = "ErrBucketNotFound"
-	ErrBucketNameReq   = "ErrBucketNameRequired"
-	ErrIncompatible    = "ErrIncompatibleValue"
-	ErrKeyRequired     = "ErrKeyRequired"
-	ErrKeyTooLarge     = "ErrKeyTooLarge"
-	ErrValueTooLarge   = "ErrValueTooLarge"
-	ErrTxNotWritable   = "ErrTxNotWritable"
-	ErrTxClosed        = "ErrTxClosed"
-	ErrSameBuckets     = "ErrSameBuckets"
-	ErrDatabaseRO      = "ErrDatabaseReadOnly"
-	ErrAny             = "<any error>" // some error is required, which one is not documented
-	MaxKeySize         = 32768
-	MaxValueSize int64 = (1 << 31) - 2
+	OK                      = ""
+	ErrBucketExists         = "ErrBucketExists"
+	ErrBucketNotFound       = "ErrBucketNotFound"
+	ErrBucketNameReq        = "ErrBucketNameRequired"
+	ErrIncompatible         = "ErrIncompatibleValue"
+	ErrKeyRequired          = "ErrKeyRequired"
+	ErrKeyTooLarge          = "ErrKeyTooLarge"
+	ErrValueTooLarge        = "ErrValueTooLarge"
+	ErrTxNotWritable        = "ErrTxNotWritable"
+	ErrTxClosed             = "ErrTxClosed"
+	ErrSameBuckets          = "ErrSameBuckets"
+	ErrDatabaseRO           = "ErrDatabaseReadOnly"
+	ErrAny                  = "<any error>" // some error is required, which one is not documented
+	MaxKeySize              = 32768
+	MaxValueSize      int64 = (1 << 31) - 2
 )
 
 // Bucket is one node of the model tree. Keys of KV and Sub share one key space.
